@@ -16,11 +16,11 @@
 (* call.  Success is demanded in one place, as the statement does: space       *)
 (* released by remove/truncate must be usable again (Fill).                    *)
 EXTENDS Integers, Sequences, FiniteSets, TLC
-CONSTANTS CU            \* units per cluster
-Files == {"A", "b", "L1", "L2", "D/A", "D/b"}
-Dirs  == {"D"}
+CONSTANTS CU,           \* units per cluster
+          Files, Dirs,  \* the path universe (abstract identities; one directory level below the root)
+          InD           \* the files that live in directory "D" (all other paths live in the root ".")
 Paths == Files \cup Dirs
-Parent == [p \in Paths |-> IF p \in {"D/A", "D/b"} THEN "D" ELSE "."]
+Parent == [p \in Paths |-> IF p \in InD THEN "D" ELSE "."]
 VARIABLES tree,         \* [Paths -> node]
           total,        \* data clusters free on the empty volume
           out           \* result class of the last call: "ok" | "err" | "full"
